@@ -177,6 +177,8 @@ def catalogue(rng, W, tier):
     # --- tree builder (tree_builder.c)
     leaves = " ".join("h:0:%s" % ksi.fake_imprint(1, b"l%d" % i).hex() for i in range(5)) + " m:0:" + b"client".hex()
     ops.append(simple("tree-builder", "drv_tree", "TB 1 8 " + leaves, "tree_builder"))
+    # nine equal-level leaves: the eighth one is carried through three joins in ONE call (a failure in the third join has two earlier joins to undo)
+    ops.append(simple("tree-builder-deep-carry", "drv_tree", "TB 1 8 " + " ".join("h:0:%s" % ksi.fake_imprint(1, b"d%d" % i).hex() for i in range(9)), "tree_builder"))
     # --- publications file / publication string (publicationsfile.c, pkitruststore, base32)
     recs = [pubfile.header(), pubfile.cert_record(W.w.signer)] + [pubfile.pub_record(1400000000 + i * 1000, ksi.fake_imprint(1, b"p%d" % i)) for i in range(3)]
     pf = pubfile.signed_file(W.w, recs).hex()
